@@ -30,6 +30,21 @@ def run(model, tier):
         cls = model.get_class(cname)
         b, S, ev = analyse_class(model, cls, scope['inputs'], outspec, opaque=opts.get('opaque'),
                                  param_dims_spec=opts.get('param_dims'))
+        pa = opts.get('pair_anchors')
+        if pa:
+            # literal (x, t) pairs (corners of the x-t diagram): first component a position, second a time
+            n_pairs = 0
+            for n in b.trace:
+                if n.kind == 'tuple' and len(n.args) == 2 and n.origin and n.origin[0] is not None \
+                        and n.origin[0].fullname == pa['function']:
+                    for i, what in ((0, 'first component of an (x, t) corner'), (1, 'second component of an (x, t) corner')):
+                        d = ev.dim(n.args[i])
+                        if isinstance(d, Lin):
+                            S.unify(d, S.from_spec(pa['dims'][i]), n.args[i], what, priority=0)
+                            n_pairs += 1
+            if n_pairs < pa.get('min', 1):
+                raise AnalysisError('%s: only %d (x, t) corner components found in %s (confirmed: %d)'
+                                    % (cname, n_pairs, pa['function'], pa.get('min', 1)))
         findings_from(S, ev, PROP, 'C08.dim', res)
         anchored = [nm for nm, d, _ in ev.outputs if nm in outspec and isinstance(d, Lin)]
         unresolved = [nm for nm, d, _ in ev.outputs if nm in outspec and not isinstance(d, Lin) and d is not POLY]
